@@ -535,7 +535,8 @@ func ruleC14NestedWaits(c *Ctx) {
 			c.Fn(c.P.funcKey(f))
 			recv := NewTB().Of(call.Common().Args[0]).String()
 			okPost, okChain := false, false
-			allInstrs(f, func(b *ssa.BasicBlock, in ssa.Instruction) {
+			// (the chaining may live in a helper the evaluator calls: `query.waitFor(nested)`)
+			deepInstrs(f, func(_ *ssa.Function, _ *TB, b *ssa.BasicBlock, in ssa.Instruction) {
 				switch in := in.(type) {
 				case *ssa.Call:
 					if bi, ok := in.Common().Value.(*ssa.Builtin); ok && bi.Name() == "append" && len(in.Common().Args) == 2 {
